@@ -199,6 +199,7 @@ class ProofModel:
         if rec is not None:
             rec.tainted = True
             rec.last_seen = max(rec.last_seen, now)
+            self._taint_if_insert_could_evict(nonce, now)
         else:
             self.evicted.pop(nonce, None)
             self._remember(nonce, now, tainted=True)
@@ -215,6 +216,9 @@ class ProofModel:
             return Verdict("ok", "ok", "ok", claims)
         if rec.tainted:
             rec.last_seen = now
+            # the real cache may not hold this nonce: then this presentation is accepted and INSERTED, and with the
+            # cache at capacity the insertion evicts another live entry - which one is not decidable
+            self._taint_if_insert_could_evict(nonce, now)
             return Verdict("unknown", "nonce_tainted_by_earlier_unknown", "s9_replayed")
         age = now - rec.accepted_at
         if age < 0:
@@ -236,6 +240,13 @@ class ProofModel:
         del self.nonces[nonce]
         self._remember(nonce, now)
         return Verdict("ok", "ok", "ok", claims)
+
+    def _taint_if_insert_could_evict(self, nonce: str, now: float) -> None:
+        ttl = float(self.skew)
+        others = [k for k, r in self.nonces.items() if k != nonce and (now - r.accepted_at < ttl or (r.tainted and now - r.last_seen < ttl))]
+        if len(others) + 1 > self.capacity:
+            for k in others:
+                self.nonces[k].tainted = True
 
     def _remember(self, nonce: str, now: float, tainted: bool = False) -> None:
         ttl = float(self.skew)
